@@ -43,6 +43,10 @@ pub use serialization::serialize;
 
 use std::collections::HashMap;
 
+/// The maximum number of objects and arrays that can be nested inside each other.  Values
+/// nested deeper than this are refused by both `serialize()` and `deserialize()`.
+pub const MAX_NESTING_DEPTH: usize = 128;
+
 /// An Enum representing the different supported types of Amf0 values
 #[derive(PartialEq, Debug, Clone)]
 pub enum Amf0Value {
